@@ -84,7 +84,18 @@ pub fn judge(a: f64, b: f64, cross: bool) -> Verdict {
     Verdict::Pass
 }
 
-pub fn replay(_call: &str, _clause: &str, args: &[u64]) -> Verdict {
+pub fn hist_judge(c: &crate::hist::HCall, _l: Option<&mut crate::run::Local>) -> Verdict {
+    if c.kind == 1 && c.code == 13 {
+        judge(c.a[0], c.a[1], true)
+    } else {
+        Verdict::Skip
+    }
+}
+
+pub fn replay(call: &str, _clause: &str, args: &[u64]) -> Verdict {
+    if call == "hist" {
+        return crate::hist::replay(args, &hist_judge);
+    }
     judge(f64::from_bits(args[0]), f64::from_bits(args[1]), true)
 }
 
@@ -260,4 +271,18 @@ pub fn run(r: &mut Runner) {
         l.count("spec_true", t);
         l.count("spec_false", f);
     });
+    {
+        use crate::hist::HCall;
+        // histories of validity queries: a pair, its mirror image (low word negated), its negation and pairs on the other
+        // side of the threshold, queried in every order (a memo keyed on magnitudes would confuse them)
+        let mut groups: Vec<Vec<HCall>> = vec![];
+        for (h, lo) in [(1.0, 2f64.powi(-53)), (4.0, 0.75 * 2f64.powi(-51)), (1.5, 2f64.powi(-53)), (2f64.powi(-969), 2f64.powi(-1023)), (3.0, 2f64.powi(-52))] {
+            let mut g = vec![];
+            for w in [[h, lo], [h, -lo], [-h, lo], [-h, -lo], [h, 0.5 * lo], [h, 2.0 * lo], [lo, h]] {
+                g.push(HCall::ext(13, w, [0.0, 0.0]));
+            }
+            groups.push(g);
+        }
+        crate::hist::explore(r, "histories: no_overlap / is_valid / try_from on mirrored pairs", &groups, 3, &hist_judge, 1u64 << 62);
+    }
 }
